@@ -488,7 +488,7 @@ def r11_client_per_call(chk: Check) -> None:
                 if last_attr(c) != "get_client":
                     continue
                 n += 1
-                construct = f"{fn.qualname}: {unparse(c.func)}() builds a new client"
+                construct = f"{fn.qualname.partition(':')[2]}: {unparse(c.func)}() builds a new client"
                 base = c.func.value.id if isinstance(c.func, ast.Attribute) and isinstance(c.func.value, ast.Name) else None
                 target = P.maybe_func(f"python/{base}.py:get_client") if base else None
                 if target is None:
